@@ -29,6 +29,7 @@ def parseData (s : String) : Option (Data Nat Nat) :=
   match words s with
   | ["e", v, l] => do some (.entry (← v.toNat?) (← l.toNat?))
   | ["o", l, f, v] => do some (.old (← l.toNat?) ((← f.toNat?) != 0) (← v.toNat?))
+  | ["j"] => some .illTyped
   | _ => none
 
 /-- `bytes:data;bytes:data` -/
